@@ -69,6 +69,9 @@ def _headers(rng):
         else:
             v = _w(rng, 1, 30, _TOKEN + " =;,/").encode()
         hs.append([hx(k.encode()), hx(v)])
+    if rng.random() < 0.15 and "content-length" not in seen:
+        # a Content-Length that may or may not agree with what follows: the body is everything behind the blank line
+        hs.append([hx(rng.choice([b"Content-Length", b"content-length"])), hx(str(rng.choice([0, 1, 5, 100, 10 ** 6])).encode())])
     return hs
 
 
